@@ -118,7 +118,8 @@ Parse(toks) ==
     IF toks = <<>> \/ (Len(toks) = 1 /\ toks[1].t = "none" /\ ~toks[1].up) THEN Parsed(Null)
     ELSE ParseFrom(toks, 1, Null)
 
-\* definitions on which the documentation is explicit: lower case, nothing specified twice
+\* definitions on which the documentation is explicit: one or more lower-case words, nothing specified
+\* twice, a URL (not a keyword, attribute or colour) after "link"
 RECURSIVE SlotsFrom(_, _)
 SlotsFrom(toks, i) ==      \* the sequence of "slots" the definition assigns, in order
     IF i > Len(toks) THEN <<>>
@@ -132,7 +133,9 @@ SlotsFrom(toks, i) ==      \* the sequence of "slots" the definition assigns, in
               [] t.t = "color" -> <<"fg">> \o SlotsFrom(toks, i + 1)
               [] OTHER -> SlotsFrom(toks, i + 1)
 Plain(toks) ==
+    /\ Len(toks) >= 1
     /\ \A i \in 1..Len(toks) : ~toks[i].up
+    /\ \A i \in 1..(Len(toks) - 1) : toks[i].t = "link" => toks[i + 1].t = "word"     \* "link" is followed by a URL
     /\ LET sl == SlotsFrom(toks, 1) IN \A i, j \in 1..Len(sl) : i # j => ToString(sl[i]) # ToString(sl[j])
 
 \* str(style): set attributes in AttrSeq order ("not x" when false), colour, "on" bgcolor, "link" url; else "none"
@@ -177,6 +180,15 @@ RightBiasOK(a, b, r) == AddDiff(a, b, r) = "none"
 \* which field of two styles differs ("none" when equal)
 StyleDiff(s, t) ==
     CASE s.attrs # t.attrs -> "attribute" [] s.fg # t.fg -> "color" [] s.bg # t.bg -> "bgcolor"
+      [] s.link # t.link -> "link" [] OTHER -> "none"
+
+\* the same with the first differing attribute / the spelling class of the expected colour t has there
+StyleDiffX(s, t) ==
+    CASE s.attrs # t.attrs -> "attribute " \o ToString(CHOOSE i \in 1..Len(AttrSeq) :
+                                   /\ s.attrs[AttrSeq[i]] # t.attrs[AttrSeq[i]]
+                                   /\ \A j \in 1..(i - 1) : s.attrs[AttrSeq[j]] = t.attrs[AttrSeq[j]])
+      [] s.fg # t.fg -> "color " \o (IF Len(t.fg) = 7 THEN ToString(t.fg[6]) ELSE "unset")
+      [] s.bg # t.bg -> "bgcolor " \o (IF Len(t.bg) = 7 THEN ToString(t.bg[6]) ELSE "unset")
       [] s.link # t.link -> "link" [] OTHER -> "none"
 
 RoundTrips(s) == Parse(Str(s)) = Parsed(s)
